@@ -123,6 +123,7 @@ type c13Opt struct {
 	secondShutdown bool
 	fireDeadline   bool // S4: an environment thread lets one pending read deadline expire at any point
 	badReader      bool // S5: DecorateReader returns a Reader without ReadPacketConn: the serve call fails at once
+	both           bool // S8: the Server holds a PacketConn and a Listener
 	handlerCloses  bool // S7: the handler closes the connection through ResponseWriter.Close after (or instead of) its reply
 }
 
@@ -179,6 +180,12 @@ func c13Scenario(name string, o c13Opt) *e2x.Scenario {
 				pc = simnet.NewPacketConn("pc")
 				srv.PacketConn = pc
 			}
+			if o.both {
+				// a Server value that holds a Listener as well (left from an earlier run, or set by the caller): the
+				// PacketConn is served; Shutdown closes what the Server holds
+				ln = simnet.NewListener("ln")
+				srv.Listener = ln
+			}
 			srv.NotifyStartedFunc = func() { vsched.Point("notify-started", nil); started = true; vsched.Logf("started") }
 			if o.badReader {
 				srv.DecorateReader = func(r dns.Reader) dns.Reader { return plainReader{r} }
@@ -219,7 +226,7 @@ func c13Scenario(name string, o c13Opt) *e2x.Scenario {
 			for i, mode := range o.clients {
 				i, mode := i, mode
 				vsched.GoNamed(fmt.Sprintf("client%d", i), func() {
-					if o.transport == "tcp" {
+					if o.transport == "tcp" && !o.both {
 						tcpClient(ln, i, mode)
 					} else {
 						udpClient(pc, i)
@@ -476,6 +483,8 @@ func c13Spaces(c *fw.Ctx) {
 		{"S4/pc/1-client+read-timeout", c13Opt{transport: "pc", clients: []string{"full"}, fireDeadline: true}, 1, 2},
 		{"S7/tcp/handler-closes-connection", c13Opt{transport: "tcp", clients: []string{"full"}, handlerCloses: true}, 2, 3},
 		{"S7/pc/handler-closes-writer", c13Opt{transport: "pc", clients: []string{"full"}, handlerCloses: true}, 1, 2},
+		{"S8/pc+listener/1-client", c13Opt{transport: "pc", both: true, clients: []string{"full"}}, 1, 2},
+		{"S8/pc+listener/0-clients", c13Opt{transport: "pc", both: true}, 100, 100},
 		{"S5/pc/reader-without-ReadPacketConn", c13Opt{transport: "pc", badReader: true}, 100, 100},
 		{"S3/tcp/silent-client+second-start", c13Opt{transport: "tcp", clients: []string{"silent"}, secondStart: true}, 1, 2},
 		{"S3/pc/1-client+second-start", c13Opt{transport: "pc", clients: []string{"full"}, secondStart: true}, 1, 2},
